@@ -65,6 +65,7 @@ type cctpReq struct {
 type cctpModel struct {
 	l        *Ledger
 	faults   bool
+	panics   bool // the message server may panic instead of returning an error
 	failed   int
 	reqs     []cctpReq
 	replaces []*cctptypes.MsgReplaceDepositForBurn
@@ -74,6 +75,10 @@ type cctpModel struct {
 var cctpModuleAddr = sdk.AccAddress([]byte{10, 10, 10, 10, 10, 10, 10, 10, 10, 10, 10, 10, 10, 10, 10, 10, 10, 10, 10, 10})
 
 func (c *cctpModel) deposit(ctx context.Context, r cctpReq) error {
+	if c.panics && verif.Bool("cctp-panics") {
+		c.failed++
+		panic(verif.Injected{What: "CCTP message server panicked"})
+	}
 	if c.faults && verif.Bool("fault-cctp") {
 		c.failed++
 		return errors.New("injected: CCTP refused (burn limit, paused, unknown domain, ...)")
@@ -135,9 +140,11 @@ func (c *cctpModel) ReplaceDepositForBurn(ctx context.Context, m *cctptypes.MsgR
 type hypModel struct {
 	l           *Ledger
 	faults      bool
+	panics      bool
 	failed      int
 	tokenKnown  bool   // is the token id registered
 	originDenom string // its collateral denom
+	tokenType   warptypes.HypTokenType
 	queries     []string
 	reqs        []*warptypes.MsgRemoteTransfer
 }
@@ -153,10 +160,14 @@ func (h *hypModel) Token(_ context.Context, req *warptypes.QueryTokenRequest) (*
 	if !h.tokenKnown {
 		return nil, errors.New("token not found")
 	}
-	return &warptypes.QueryTokenResponse{Token: &warptypes.WrappedHypToken{OriginDenom: h.originDenom}}, nil
+	return &warptypes.QueryTokenResponse{Token: &warptypes.WrappedHypToken{OriginDenom: h.originDenom, TokenType: h.tokenType}}, nil
 }
 
 func (h *hypModel) RemoteTransfer(_ context.Context, m *warptypes.MsgRemoteTransfer) (*warptypes.MsgRemoteTransferResponse, error) {
+	if h.panics && verif.Bool("warp-panics") {
+		h.failed++
+		panic(verif.Injected{What: "warp message server panicked"})
+	}
 	if h.faults && verif.Bool("fault-hyp-transfer") {
 		h.failed++
 		return nil, errors.New("injected: remote transfer refused (no enrolled router, mailbox, ...)")
@@ -184,12 +195,17 @@ func (h *hypModel) RemoteTransfer(_ context.Context, m *warptypes.MsgRemoteTrans
 type internalModel struct {
 	l       *Ledger
 	faults  bool
+	panics  bool
 	failed  int
 	blocked []sdk.AccAddress // blocked module accounts (simapp/app.yaml: not the orbiter account itself)
 	reqs    []*banktypes.MsgSend
 }
 
 func (h *internalModel) Send(ctx context.Context, msg *banktypes.MsgSend) (*banktypes.MsgSendResponse, error) {
+	if h.panics && verif.Bool("bank-msgsend-panics") {
+		h.failed++
+		panic(verif.Injected{What: "bank message server panicked"})
+	}
 	if h.faults && verif.Bool("fault-bank-msgsend") {
 		h.failed++
 		return nil, errors.New("injected: bank send refused (send disabled, restriction, ...)")
@@ -357,7 +373,7 @@ func newWorldCustom(faults bool, extra orbitertypes.ActionController) *World {
 	cdc := newCodec()
 	w.K = keeper.NewKeeper(cdc, addrCodec{}, nopLogger{}, w.Ev, svc, authorityAddr.String(), w.L)
 	w.CCTP = &cctpModel{l: w.L, faults: faults}
-	w.Hyp = &hypModel{l: w.L, faults: faults, tokenKnown: true, originDenom: "uusdc"}
+	w.Hyp = &hypModel{l: w.L, faults: faults, tokenKnown: true, originDenom: "uusdc", tokenType: warptypes.HYP_TOKEN_TYPE_COLLATERAL}
 	dust := modAddr(core.DustCollectorName)
 	w.Int = &internalModel{l: w.L, faults: faults, blocked: []sdk.AccAddress{dust}}
 	w.App = &ics20{l: w.L, faults: faults, blocked: []sdk.AccAddress{dust}}
